@@ -735,6 +735,19 @@ impl Interp {
                         }
                     }
                 }
+                // … and the same for an input that got PAST the checksum stage and was refused
+                // only later (by the MIME parser: e.g. a response that is nothing but its checksum
+                // line, protected region = 0 bytes): the stage ran before the parser, so a
+                // well-formed last line whose digits are not the SHA-256 of the bytes before it
+                // must have ended in a checksum error
+                "v1" if !e.accepted && e.resp == "pass" => {
+                    if let Some((p, Some(c))) = v1_last_line(d) {
+                        if hex(&sha256(&d[..p])).as_bytes() != c {
+                            s.oracle_fail("v1-checksum-stage-passed-digest-mismatch", &format!("the input ends in a well-formed Checksum line whose 64 digits are not the SHA-256 of the {p} byte(s) before it, and it is not refused with a checksum error (it got past the checksum stage and was refused later, by the MIME parser): the check is skipped for this protected region"), &replay);
+                            return;
+                        }
+                    }
+                }
                 _ => {}
             }
         }
@@ -1795,6 +1808,172 @@ fn ml_fault_family(s: &mut Session, it: &mut Interp, rng: &mut Rng, rounds: usiz
     it.accepted_any = false;
 }
 
+/// 'Degenerate payloads' behind every validating cache entry point (after seeded change C07-2d, a
+/// fast path that reports a zero-length payload valid without hashing it): the EMPTY value is a
+/// member of every damaged-variant family, and the genuinely empty content under MD5("") is served.
+///  * every truncation length 0..=n of a stored value (0 = the 0-byte file a crash between create
+///    and write leaves behind; n = the honest value) written behind the cache's back into the disk
+///    layer's file, the memory layer and the ContentAddressedCache file, then a validated read;
+///  * the empty value offered to both validated puts under keys that are not MD5("") (the key of
+///    another value, zeros, ones, random, MD5("") with one bit flipped, MD5 of one zero byte) and
+///    non-empty values (1 byte: 00, a random one) offered under MD5("");
+///  * the empty value served DURING a validating read: by the harness-owned store at read 1 / 2 / 3
+///    (rewritten / that read only; honest / damaged / already empty at the start), by the disk
+///    layer's file rewritten at the schedule points;
+///  * the genuinely empty content under MD5(""): both validated puts, both validated reads from
+///    every layer, an empty file restored after damage, the store answering empty during the call.
+fn cache_degenerate_family(s: &mut Session, it: &mut Interp, rng: &mut Rng, rounds: usize) {
+    let mut text = String::new();
+    let e_raw = md5::compute(b"").0.to_vec();
+    let e = hex(&e_raw);
+    fn run(s: &mut Session, it: &mut Interp, text: &mut String, line: String) {
+        text.push_str(&line);
+        text.push('\n');
+        it.exec(s, &line);
+    }
+    for r in 0..rounds {
+        let n = if r == 0 { 8 } else { rng.range(1, 14) as usize };
+        let v = rng.bytes(n);
+        let c = hex(&md5::compute(&v).0);
+        let k = hex(&rng.bytes(16));
+        // ---- every truncation length behind the validated reads (one case per store: short replays)
+        run(s, it, &mut text, format!("begin cache hooks=1 skip={SKIP_ABOVE} layers=2"));
+        for l in 0..=n {
+            run(s, it, &mut text, format!("putl 1 {k} {}", hex(&v)));
+            run(s, it, &mut text, format!("corrupt 1 {k} {}", hex(&v[..l])));
+            run(s, it, &mut text, format!("getv {k} {c}"));
+            run(s, it, &mut text, format!("has {k}"));
+            s.tally(&format!("family:cache:truncated-to:{}:disk-file", if l == 0 { "0" } else if l == n { "full" } else { "1..n-1" }));
+        }
+        run(s, it, &mut text, format!("begin cache hooks=1 skip={SKIP_ABOVE} layers=2"));
+        for l in 0..=n {
+            for layer in [0usize, 1] {
+                run(s, it, &mut text, format!("putl {layer} {k} {}", hex(&v[..l])));
+                run(s, it, &mut text, format!("getv {k} {c}"));
+                run(s, it, &mut text, format!("has {k}"));
+            }
+            s.tally(&format!("family:cache:truncated-to:{}:raw-layer-put", if l == 0 { "0" } else if l == n { "full" } else { "1..n-1" }));
+        }
+        run(s, it, &mut text, format!("begin cache hooks=1 skip={SKIP_ABOVE} layers=1"));
+        for l in 0..=n {
+            run(s, it, &mut text, format!("caput {c} {}", hex(&v)));
+            run(s, it, &mut text, format!("cacorrupt {c} {}", hex(&v[..l])));
+            run(s, it, &mut text, format!("caget {c}"));
+            s.tally(&format!("family:cache:truncated-to:{}:ca-file", if l == 0 { "0" } else if l == n { "full" } else { "1..n-1" }));
+        }
+        // ---- the empty value offered to the validated puts under keys that are not MD5(""), and
+        // non-empty values offered under MD5("")
+        let mut wrong: Vec<Vec<u8>> = vec![md5::compute(&v).0.to_vec(), vec![0u8; 16], vec![0xFF; 16], rng.bytes(16), md5::compute([0u8]).0.to_vec()];
+        for _ in 0..3 {
+            let mut e2 = e_raw.clone();
+            e2[rng.below(16) as usize] ^= 1 << rng.below(8);
+            wrong.push(e2);
+        }
+        for layers in [2usize, 1] {
+            run(s, it, &mut text, format!("begin cache hooks=1 skip={SKIP_ABOVE} layers={layers}"));
+            for w in &wrong {
+                run(s, it, &mut text, format!("putv {k} {} -", hex(w)));
+                run(s, it, &mut text, format!("has {k}"));
+                run(s, it, &mut text, format!("getv {k} {}", hex(w)));
+                run(s, it, &mut text, format!("caput {} -", hex(w)));
+                run(s, it, &mut text, format!("caget {}", hex(w)));
+            }
+            s.tally("family:cache:empty-value-under-other-key");
+            for w in [vec![0u8], vec![rng.byte()], v.clone()] {
+                run(s, it, &mut text, format!("putv {k} {e} {}", hex(&w)));
+                run(s, it, &mut text, format!("getv {k} {e}"));
+                run(s, it, &mut text, format!("caput {e} {}", hex(&w)));
+                run(s, it, &mut text, format!("caget {e}"));
+            }
+            s.tally("family:cache:nonempty-value-under-md5-of-empty");
+            // ---- the genuinely empty content under MD5(""): stored, served from every layer, damaged, restored
+            run(s, it, &mut text, format!("putv {k} {e} -"));
+            run(s, it, &mut text, format!("has {k}"));
+            run(s, it, &mut text, format!("getv {k} {e}"));
+            run(s, it, &mut text, format!("getv {k} {c}"));
+            for layer in 0..layers {
+                let k3 = hex(&rng.bytes(16));
+                run(s, it, &mut text, format!("putl {layer} {k3} -"));
+                run(s, it, &mut text, format!("getv {k3} {e}"));
+                run(s, it, &mut text, format!("has {k3}"));
+                run(s, it, &mut text, format!("putl {layer} {k3} 00"));
+                run(s, it, &mut text, format!("getv {k3} {e}"));
+                run(s, it, &mut text, format!("has {k3}"));
+            }
+            if layers == 2 {
+                let k3 = hex(&rng.bytes(16));
+                run(s, it, &mut text, format!("putl 1 {k3} -"));
+                run(s, it, &mut text, format!("corrupt 1 {k3} {}", hex(&v)));
+                run(s, it, &mut text, format!("corrupt 1 {k3} -"));
+                run(s, it, &mut text, format!("getv {k3} {e}"));
+                for m in 0..=2usize {
+                    let k4 = hex(&rng.bytes(16));
+                    run(s, it, &mut text, format!("putl 1 {k4} -"));
+                    run(s, it, &mut text, format!("getvf {k4} {e} {m} {}", hex(&v)));
+                    run(s, it, &mut text, format!("has {k4}"));
+                    run(s, it, &mut text, format!("putl 1 {k4} {}", hex(&v)));
+                    run(s, it, &mut text, format!("getvf {k4} {e} {m} -"));
+                    run(s, it, &mut text, format!("has {k4}"));
+                    run(s, it, &mut text, format!("getv {k4} {e}"));
+                }
+            }
+            run(s, it, &mut text, format!("caput {e} -"));
+            run(s, it, &mut text, format!("caget {e}"));
+            run(s, it, &mut text, format!("cacorrupt {e} 00"));
+            run(s, it, &mut text, format!("caget {e}"));
+            run(s, it, &mut text, format!("cacorrupt {e} -"));
+            run(s, it, &mut text, format!("caget {e}"));
+            for nn in 1..=3usize {
+                for mode in ["put", "once"] {
+                    run(s, it, &mut text, format!("caput {e} -"));
+                    run(s, it, &mut text, format!("cagetf {e} {nn} {mode} {}", hex(&v)));
+                    run(s, it, &mut text, format!("caget {e}"));
+                    run(s, it, &mut text, format!("cacorrupt {e} {}", hex(&v)));
+                    run(s, it, &mut text, format!("cagetf {e} {nn} {mode} -"));
+                    run(s, it, &mut text, format!("caget {e}"));
+                }
+            }
+            s.tally("family:cache:genuinely-empty-content");
+        }
+        // ---- the empty value served DURING a validating read of a non-empty content key
+        for nn in 1..=3usize {
+            run(s, it, &mut text, format!("begin cache hooks=1 skip={SKIP_ABOVE} layers=1"));
+            for mode in ["put", "once"] {
+                for start in ["honest", "damaged", "empty"] {
+                    run(s, it, &mut text, format!("caput {c} {}", hex(&v)));
+                    match start {
+                        "damaged" => run(s, it, &mut text, format!("cacorrupt {c} {}aa55", hex(&v))),
+                        "empty" => run(s, it, &mut text, format!("cacorrupt {c} -")),
+                        _ => {}
+                    }
+                    run(s, it, &mut text, format!("cagetf {c} {nn} {mode} -"));
+                    run(s, it, &mut text, format!("caget {c}"));
+                    s.tally(&format!("family:cache:store-answers-empty-at-read-{nn}:{mode}:start-{start}"));
+                }
+            }
+        }
+        for m in 0..=2usize {
+            run(s, it, &mut text, format!("begin cache hooks=1 skip={SKIP_ABOVE} layers=2"));
+            for start in ["honest", "damaged", "empty", "in-memory"] {
+                let k5 = hex(&rng.bytes(16));
+                run(s, it, &mut text, format!("putl 1 {k5} {}", hex(&v)));
+                match start {
+                    "damaged" => run(s, it, &mut text, format!("corrupt 1 {k5} {}aa55", hex(&v))),
+                    "empty" => run(s, it, &mut text, format!("corrupt 1 {k5} -")),
+                    "in-memory" => run(s, it, &mut text, format!("putv {k5} {c} {}", hex(&v))),
+                    _ => {}
+                }
+                run(s, it, &mut text, format!("getvf {k5} {c} {m} -"));
+                run(s, it, &mut text, format!("has {k5}"));
+                run(s, it, &mut text, format!("getv {k5} {c}"));
+                s.tally(&format!("family:cache:disk-file-emptied:{}:{start}", if m == 0 { "before-read".to_string() } else { format!("after-read-{m}") }));
+            }
+        }
+    }
+    s.case(Some(&text));
+    it.accepted_any = false;
+}
+
 fn cache_history(s: &mut Session, it: &mut Interp, rng: &mut Rng, hooks: bool, layers: usize, ops: usize) {
     it.exec(s, &format!("begin cache hooks={} skip={} layers={}", u8::from(hooks), SKIP_ABOVE, layers));
     let keys: Vec<Vec<u8>> = (0..3).map(|_| rng.bytes(16)).collect();
@@ -2104,8 +2283,61 @@ fn main() {
         // ---- "the bytes returned are not the bytes that were validated"
         cache_fault_family(&mut s, &mut it, &mut rng, q(2, 12));
         ml_fault_family(&mut s, &mut it, &mut rng, q(2, 12));
+        // ---- "degenerate payloads": the empty value in every damaged-variant family of the
+        // validating caches, the genuinely empty content under MD5("")
+        cache_degenerate_family(&mut s, &mut it, &mut rng, q(2, 8));
+        // ---- the same boundary for the in-memory acceptors: artifacts with an EMPTY protected
+        // region / zero entries, and every short prefix (0..=48 bytes, the last 16 cuts) of one
+        // artifact of each kind
+        {
+            // V1: a response that is nothing but its checksum line (protected region = 0 bytes:
+            // SHA-256 of the empty string), and one with a 1-byte region; every bit of both
+            for msg in [&b""[..], &b"\n"[..], &b"x"[..]] {
+                for eol in ["\r\n", "\n", ""] {
+                    let mut d = msg.to_vec();
+                    d.extend_from_slice(format!("Checksum: {}{eol}", hex(&sha256(msg))).as_bytes());
+                    let len = d.len();
+                    let plan = Plan { exhaustive: vec![(0, len)], sampled_flips: 0, subs: 8, truncs: 2, exts: 3, all_subs: false, truncs_at: (0..=len).collect() };
+                    mutate_case(&mut s, &mut it, &mut rng, format!("begin v1 {}", hex(&d)), &plan, false);
+                    s.tally("family:degenerate:v1-empty-or-1-byte-region");
+                }
+            }
+            // update section with zero entries (one empty page)
+            {
+                let d = gen_upd(&mut rng, 0);
+                let plan = Plan { exhaustive: vec![(0, 48)], sampled_flips: 20, subs: 10, truncs: 4, exts: 2, all_subs: false, truncs_at: vec![0, 1, 23, 24, 25] };
+                mutate_case(&mut s, &mut it, &mut rng, format!("begin upd {}", hex(&d)), &plan, false);
+                s.tally("family:degenerate:upd-zero-entries");
+            }
+            let heads = |kind: &str, d: Vec<u8>| -> (String, Plan) {
+                let n = d.len();
+                let mut cuts: Vec<usize> = (0..=n.min(48)).collect();
+                cuts.extend(n.saturating_sub(16)..n);
+                cuts.sort_unstable();
+                cuts.dedup();
+                (format!("begin {kind} {}", hex(&d)), Plan { exhaustive: vec![], sampled_flips: 0, subs: 0, truncs: 0, exts: 0, all_subs: false, truncs_at: cuts })
+            };
+            let lh = LocalHeader::new(rng.bytes(16).try_into().unwrap(), rng.below(1 << 31) as u32, 61);
+            let bases: Vec<(String, Vec<u8>)> = vec![
+                ("lru".into(), gen_lru(&mut rng, 0, 1)),
+                ("lru".into(), gen_lru(&mut rng, 2, 1)),
+                ("lhdr 61".into(), lh.to_bytes().to_vec()),
+                ("seg".into(), SegmentHeader::generate(rng.below(1023) as u16, &rng.bytes(16).try_into().unwrap()).to_bytes().to_vec()),
+                ("upd".into(), gen_upd(&mut rng, 1)),
+                ("aidx".into(), gen_aidx(&mut rng, 16, 4, 0)),
+                ("aidx".into(), gen_aidx(&mut rng, 16, 4, 1)),
+                ("aidxc".into(), gen_aidx(&mut rng, 16, 4, 1)),
+                ("v1".into(), gen_v1(&mut rng, 0)),
+                ("enc".into(), gen_enc(&mut rng, true)),
+            ];
+            for (kind, d) in bases {
+                let (b, plan) = heads(&kind, d);
+                mutate_case(&mut s, &mut it, &mut rng, b, &plan, true);
+                s.tally("family:degenerate:short-prefixes");
+            }
+        }
     }
 
-    s.rule = "valid artifacts from the crates' builders (encoding tables with 1 KiB pages, archive indices with key sizes 7/9/16 and offset sizes 4/5/6, .lru files with 0–20 entries, update sections with 1–23 entries, local headers at five base offsets, segment header blocks, V1 responses plain/multipart/upper-case checksum, and V1 responses whose checksummed bytes themselves contain 1–4 occurrences of the text `Checksum: ` — free text / empty / 63, 64, 65 digits / upper case / all zero / a nested line valid for its own prefix, placed in a header value, at a line start, mid-line at the end of a row, mid-line followed by more text, in the MIME preamble / epilogue or glued to the real line, with line ends CRLF / LF / none: 9 fixed shapes + random ones) × single-bit flips (exhaustive over the protected region for artifacts ≤ 4 KiB in thorough; always exhaustive over .lru files, local headers, index footers, checksum fields, the 22 encoding header bytes and every `Checksum: ` occurrence of a V1 response), byte substitutions (0x00, 0xFF, +1, random; every value for local headers in thorough), truncations and insertions at protected-range boundaries (V1: cuts at the start / end of every `Checksum: ` occurrence and line); cache histories of put_with_validation / put_to_layer / overwrite-backing-file / get_with_validation / ContentAddressedCache put/corrupt/get; 'comparison weaker than equality' families: all 255 other byte values at every position of each stored digest and small protected region (.lru with 0 / 1 entries, local headers, first update slot, archive-index footers through parse / open / is_valid alone, first CKey page checksum; sampled positions of pages, segment block, V1 message; V1 digits: all values at sampled positions, every hex digit in both cases + neighbouring characters at the others; content-key bytes on both validated puts, value bytes behind both validated gets) and two-byte substitutions whose differences cancel under XOR / sum / difference folds (all pairs inside stored digests, same-lane pairs of local headers, sampled pairs elsewhere); 'returned bytes are the validated bytes' families: get_validated through a harness-owned inner cache that answers differently at the 1st / 2nd / 3rd read of the call (rewritten from then on / that read only; bit flip, truncation, extension, other value, entry gone, same bytes; honest / already damaged store), get_with_validation with the disk layer's file rewritten at the DiskCache schedule points before the first / after the first / after a second read; evaluations = mutated artifacts + cache histories; non-trivial = acceptor got past its length guards (any response except err:io / none) resp. history reached a hit or a validation error; distinct = canonical (kind, base prefix, request) text".into();
+    s.rule = "valid artifacts from the crates' builders (encoding tables with 1 KiB pages, archive indices with key sizes 7/9/16 and offset sizes 4/5/6, .lru files with 0–20 entries, update sections with 1–23 entries, local headers at five base offsets, segment header blocks, V1 responses plain/multipart/upper-case checksum, and V1 responses whose checksummed bytes themselves contain 1–4 occurrences of the text `Checksum: ` — free text / empty / 63, 64, 65 digits / upper case / all zero / a nested line valid for its own prefix, placed in a header value, at a line start, mid-line at the end of a row, mid-line followed by more text, in the MIME preamble / epilogue or glued to the real line, with line ends CRLF / LF / none: 9 fixed shapes + random ones) × single-bit flips (exhaustive over the protected region for artifacts ≤ 4 KiB in thorough; always exhaustive over .lru files, local headers, index footers, checksum fields, the 22 encoding header bytes and every `Checksum: ` occurrence of a V1 response), byte substitutions (0x00, 0xFF, +1, random; every value for local headers in thorough), truncations and insertions at protected-range boundaries (V1: cuts at the start / end of every `Checksum: ` occurrence and line); cache histories of put_with_validation / put_to_layer / overwrite-backing-file / get_with_validation / ContentAddressedCache put/corrupt/get; 'comparison weaker than equality' families: all 255 other byte values at every position of each stored digest and small protected region (.lru with 0 / 1 entries, local headers, first update slot, archive-index footers through parse / open / is_valid alone, first CKey page checksum; sampled positions of pages, segment block, V1 message; V1 digits: all values at sampled positions, every hex digit in both cases + neighbouring characters at the others; content-key bytes on both validated puts, value bytes behind both validated gets) and two-byte substitutions whose differences cancel under XOR / sum / difference folds (all pairs inside stored digests, same-lane pairs of local headers, sampled pairs elsewhere); 'returned bytes are the validated bytes' families: get_validated through a harness-owned inner cache that answers differently at the 1st / 2nd / 3rd read of the call (rewritten from then on / that read only; bit flip, truncation, extension, other value, entry gone, same bytes; honest / already damaged store), get_with_validation with the disk layer's file rewritten at the DiskCache schedule points before the first / after the first / after a second read; 'degenerate payload' families: every truncation length 0..=n (0 = empty file) of a stored value behind both validated reads (disk file, memory layer, content-addressed file), the empty value offered to both validated puts under keys other than MD5(\"\") and non-empty values under MD5(\"\"), the empty value served at read 1 / 2 / 3 and at the DiskCache schedule points, the genuinely empty content under MD5(\"\") stored / served / damaged / restored, V1 responses with a 0- or 1-byte protected region (every bit, every cut), a zero-entry update section, every prefix of 0..=48 bytes and the last 16 cuts of one artifact of each kind; evaluations = mutated artifacts + cache histories; non-trivial = acceptor got past its length guards (any response except err:io / none) resp. history reached a hit or a validation error; distinct = canonical (kind, base prefix, request) text".into();
     s.finish();
 }
